@@ -16,12 +16,14 @@ SPEC = dict(
          "real QXmppClient with discovery manager, random bundled managers and generated extensions/identities/info forms: <c ver> of "
          "the emitted presence == XEP hash recomputed from the XML of the real disco#info reply for node#ver ('caps' lines tie the "
          "capabilities()/addProperCapability()/handleIq() model); then per client a history of 2-5 reconfigurations (setClientName/Type/Category/"
-         "CapabilitiesNode/InfoForm, addExtension, removeExtension) each followed by a re-publication (fresh presence or one derived from "
-         "clientPresence(); via setClientPresence or via connectToServer + session start on a loopback socket) and the same comparison after "
-         "EVERY emitted presence, for node#ver, the plain node and no node ('config'/'publish'/'query' lines tie the stateful clientStep model); "
-         "capabilities nodes include adversarial URIs ('#' inside / repeated / at the end, XML-special and non-ASCII characters, nodes that are "
-         "prefixes or extensions of each other, the empty node = nothing advertised). A sequence (one base set with its variants) is non-trivial when it "
-         "yields >= 2 distinct hashes.",
+         "CapabilitiesNode/InfoForm, addExtension, removeExtension) interleaved with EVERY presence emission site: setClientPresence and "
+         "connectToServer + session start (fresh presence or one derived from clientPresence()), session start after an automatic reconnection "
+         "(_q_reconnect) or after a reconfiguration made between connectToServer and the session start, QXmppMucRoom::join, "
+         "disconnectFromServer; after EVERY emitted presence its <c node ver> is compared with the independently computed XEP hash of the "
+         "XML the client answers at that moment, and node#ver / plain node / no node are queried ('config'/'publish'/'connect'/'emit'/'query' "
+         "lines tie the stored-presence model clientStep); capabilities nodes include adversarial URIs ('#' inside / repeated / at the end, "
+         "XML-special and non-ASCII characters, nodes that are prefixes or extensions of each other, the empty node = nothing advertised). "
+         "A sequence (one base set with its variants, or one client history) is non-trivial when it yields >= 2 distinct observations.",
     trusted_base=[
         "Lean 4.33.0 kernel; axioms per theorem listed under coverage.theorems (subset of propext, Classical.choice, Quot.sound)",
         "hand-written model lean/Qx/Model/C20Caps.lean (verStringCode = transcription of QXmppDiscoveryIq::verificationString incl. QMap, "
@@ -40,21 +42,26 @@ SPEC = dict(
         "XEP-0115 string format itself is ambiguous otherwise (theorems xep_string_ambiguous_*); XEP-0115 5.4 rejects '<' on receipt",
         "field 'var's are unique (XEP-0004 3.2); with a repeated var the QMap keeps the last field (field_order_matters_when_keys_repeat)",
         "strings are well-formed Unicode (no lone surrogates in a QString)",
-        "advertised == answered is about one fixed configuration: reconfiguring the manager after the presence was sent leaves the advertised "
-        "hash stale until the next presence is published (counted as stale_ver_answered_with_new_info_before_republication; nothing is claimed "
-        "between publications, every newly emitted presence is checked)",
+        "no presence emitted => nothing claimed: between a reconfiguration and the next emitted presence the previously advertised hash is "
+        "stale (counted as stale_ver_answered_with_new_info_before_any_new_presence); every presence that IS emitted is judged",
+        "scope: generation/advertisement vs. own answer only; verifying other entities' caps (XEP-0115 5.4) has no code path in qxmpp and is "
+        "outside the property; XEP-0390 (caps 2.0) is not emitted by the library",
     ],
     level_text="Theorems for ALL info sets: ver_perm_invariant (identities, features, fields, values in any order), ver_feature_set_invariant / "
                "ver_dup_feature_invariant, ver_string_injective_tokens / _on_canonical and the ver_changes_when_* corollaries under named "
                "SHA-1 collision freedom, code_eq_spec (C++ string = XEP-0115 5.1 string for every info set with a form in the XEP's domain and "
                "plain values, any characters; i;octet on UTF-8 proved to be code point order), advertised_eq_answered / "
-               "advertised_eq_xep_hash_of_answer, every_published_ver_is_answered (any history of reconfigure/publish/query), reply_features_nodup; defects with witnesses: C20_defect_boolean_field, "
-               "C20_defect_valueless_field. Model tied to the real library by exhaustive-permutation + random correspondence and an "
-               "independent XEP implementation.",
-    level_note="Proved about the hand-written model; model-to-code tie is differential (all permutations of small sets, sampled beyond). SHA-1 "
-               "collision resistance is a named hypothesis. Two recorded deviations from XEP-0115 (boolean fields hashed as true/false, "
-               "value-less fields hashed as var<<) are excluded from code_eq_spec by the PlainForm hypothesis; the collation and repeated-"
-               "feature defects found earlier are fixed in /repo (0beac74, eee8133) and their witnesses stay in the corpus.",
+               "advertised_eq_xep_hash_of_answer, advertised_node_always_answered (any node string), reply_features_nodup; for ALL client "
+               "histories over {reconfigure, setClientPresence, connectToServer, session start / MUC join / disconnect (stored presence), query}: "
+               "setClientPresence_emits_fresh_caps, every_emitted_caps_are_fresh_in_disciplined_histories (no reconfiguration between the last "
+               "recomputation and an emission) + fresh_caps_are_answered; defects with witnesses: C20_defect_boolean_field, "
+               "C20_defect_valueless_field, C20_defect_stale_caps_on_stored_emission. Model tied to the real library by exhaustive-permutation + "
+               "random correspondence, an independent XEP implementation, and real client histories on a loopback connection.",
+    level_note="Proved about the hand-written model; model-to-code tie is differential (all permutations of small sets, sampled beyond; sampled "
+               "client histories). SHA-1 collision resistance is a named hypothesis. Recorded deviations: boolean fields hashed as true/false and "
+               "value-less fields hashed as var<< (excluded from code_eq_spec by PlainForm; fixes/C20-form-values.diff), and stale caps at the "
+               "sites that send the stored presence after a reconfiguration (session start incl. automatic reconnection, MUC join, disconnect; "
+               "excluded by the Disciplined hypothesis; fixes/C20-stale-caps.diff). Verification of other entities' caps and XEP-0390 are out of scope.",
     design_ref="5.20",
     technique="Lean 4 proofs (sorting/permutation, injective encoding, UTF-8 order) + model/implementation correspondence + independent XEP-0115 oracle",
 )
